@@ -24,7 +24,7 @@ MANIFEST = dict(
     category="proof",
     text="Lean 4 theorems (38 audited, no size bound) on a model of the plain C API assembly of wrapc.py (language c++). "
          "Call equivalence for ALL parameter lists and values of the modelled kinds: native/bool/struct by value, pointer, reference; "
-         "native `T **` / `T *&`; char by value, `char *`, `char **`, `void **`; enum by value and (after fix eb11a8b) by pointer/"
+         "native `T **` / `T *&`; char by value, `char *`, `char **`, `void **`; enum by value and (after fix f9c4cc7) by pointer/"
          "reference; std::string by value and by pointer/reference with intent in/out/inout; class instances by value/pointer/"
          "reference; callbacks (function pointers): the C++ callee sees the documented conversion of each C argument in declaration "
          "order (arg_call_equivalence, args_call_equivalence by induction, call_equivalence_no_this / _method), output arguments "
@@ -42,7 +42,7 @@ MANIFEST = dict(
          "positions (table_arg_shapes, table_res_shapes, table_class_entries), typemap conversion patterns are mutually inverse "
          "pairs (table_typemap_pairs), the built tree holds entry i at key i (table_tree_entries). `_partial`: "
          "plain_keys_reach_plain_entries_partial - kinds listed under not_modelled only get 'unreachable from plain keys'; "
-         "enum_indirect_old_code_ill_typed is a witness about the code before eb11a8b.",
+         "enum_indirect_old_code_ill_typed is a witness about the code before f9c4cc7.",
     design="3 C02",
     note="Tie: (T) tools/extract_cstmts.py regenerates Gen/CStmts.lean on every run (82 c_* entries, 37 template lines and the "
          "typemap conversion patterns mapped to op codes by an explicit pattern table; an unmapped line raises). (D) real "
